@@ -812,10 +812,20 @@ func ruleLoop(c *chk.Ctx) {
 			}
 		})
 		if gc.kind == "watcher" && stops {
+			// every path from the watcher's entry to its return passes the Stop call
 			okStop = true
+			if len(b.Blocks) > 0 && len(b.Blocks[0].Instrs) > 0 {
+				q := ir.PathQuery{Goal: func(i ssa.Instruction) bool {
+					ci, ok := i.(ssa.CallInstruction)
+					return ok && ci.Common().StaticCallee() != nil && ci.Common().StaticCallee().Name() == "Stop"
+				}}
+				if ok, _ := q.MustReach(b.Blocks[0].Instrs[0]); !ok {
+					okStop = false
+				}
+			}
 		}
 	})
-	c.Check(okStop, "PAIR.loop", conn, "context end stops the server", conn.Pos(), "a watcher on a child of ctx (cancel deferred) calls Stop on this connection's server", "no watcher goroutine stops this connection's server when the context ends")
+	c.Check(okStop, "PAIR.loop", conn, "context end stops the server", conn.Pos(), "a watcher on a child of ctx (cancel deferred) calls Stop on this connection's server on every wake-up path", "no watcher goroutine stops this connection's server on every path after its context ends (a select that can take a branch without Stop leaves the server running when the parent context ended)")
 	// D6: error mapping
 	okMap := false
 	for _, r := range ir.Returns(loop) {
@@ -892,4 +902,107 @@ func ruleLoop(c *chk.Ctx) {
 		c.Check(okWatch, "PAIR.loop", na, "context end closes the listener", na.Pos(), "a watcher released by a deferred close closes the listener when the context ends, started before the blocking Accept on every path", "no watcher closes the listener at context end on every path before Accept")
 	}
 	c.Floor("PAIR.loop", 9, "fresh service, one Finish, arguments, failed service ×2, returns last, stop watcher, error mapping, NetAccepter ×2")
+}
+
+// ruleRecvClosesBody: in the function that takes a response off the result
+// channel by a plain receive, every path from the receive to a return closes
+// the body, except the closed-channel edge and the edge where the response
+// carries a transport error (no response object).
+func ruleRecvClosesBody(c *chk.Ctx) {
+	for _, f := range pkgFuncs(c, c.M.JhttpPkg) {
+		var recv *ssa.UnOp
+		ir.Instrs(f, func(ins ssa.Instruction) {
+			if u, ok := ins.(*ssa.UnOp); ok && u.Op == token.ARROW && strings.HasSuffix(u.X.Type().String(), "jhttp.response") {
+				recv = u
+			}
+		})
+		if recv == nil {
+			continue
+		}
+		isClose := func(i ssa.Instruction) bool {
+			ci, ok := i.(ssa.CallInstruction)
+			return ok && ci.Common().IsInvoke() && ci.Common().Method.Name() == "Close" && strings.HasSuffix(ci.Common().Value.Type().String(), "io.ReadCloser")
+		}
+		bad := ""
+		for _, r := range ir.Returns(f) {
+			// acceptable without a close: the !ok edge, or the err != nil edge of the received struct
+			exempt := false
+			for _, cd := range ir.CondsAt(r.Block()) {
+				if e, ok := cd.V.(*ssa.Extract); ok && e.Tuple == ssa.Value(recv) && e.Index == 1 && !cd.Truth {
+					exempt = true
+				}
+				if x, eq, ok := ir.NilCompare(cd.V); ok && eq != cd.Truth {
+					if fld, ok := x.(*ssa.Field); ok && fld.Type().String() == "error" {
+						exempt = true
+					}
+					if u, ok := x.(*ssa.UnOp); ok {
+						if fa, ok := u.X.(*ssa.FieldAddr); ok && ir.FieldVar(fa).Type().String() == "error" {
+							exempt = true
+						}
+					}
+				}
+			}
+			if exempt {
+				continue
+			}
+			closed := false
+			ir.Instrs(f, func(i ssa.Instruction) {
+				if isClose(i) && ir.InstrDominates(i, r) {
+					closed = true
+				}
+			})
+			if !closed {
+				bad = c.P.Pos(r.Pos())
+			}
+		}
+		c.Check(bad == "", "PAIR.body", f, "body closed on every path after a response was received", recv.Pos(), "every return that follows the receipt of an HTTP response is dominated by Body.Close()", "a return at "+bad+" follows the receipt of an HTTP response without closing its body (e.g. the non-200 status path): the response has left the channel, so Close cannot close it either")
+	}
+}
+
+// ruleQuerySliceBounds: in the query-value parsers, s[a:len(s)-b] is
+// dominated by len(s) >= a+b, and s[0] / s[len(s)-1] by s being non-empty.
+func ruleQuerySliceBounds(c *chk.Ctx) {
+	n := 0
+	for _, f := range pkgFuncs(c, c.M.JhttpPkg) {
+		if f.Parent() != nil || !strings.HasPrefix(f.Name(), "parse") {
+			continue
+		}
+		ir.Instrs(f, func(ins ssa.Instruction) {
+			sl, ok := ins.(*ssa.Slice)
+			if !ok || sl.X.Type().String() != "string" || sl.Low == nil || sl.High == nil {
+				return
+			}
+			a, isA := ir.ConstInt(sl.Low)
+			bo, isB := sl.High.(*ssa.BinOp)
+			if !isA || !isB || bo.Op != token.SUB {
+				return
+			}
+			x, isLen := ir.LenOf(bo.X)
+			b, isC := ir.ConstInt(bo.Y)
+			if !isLen || !isC || x != sl.X {
+				return
+			}
+			n++
+			need := a + b
+			ok2 := false
+			for _, cd := range ir.CondsAt(sl.Block()) {
+				cb, ok := cd.V.(*ssa.BinOp)
+				if !ok {
+					continue
+				}
+				lx, isL := ir.LenOf(cb.X)
+				k, isK := ir.ConstInt(cb.Y)
+				if !isL || !isK || lx != sl.X {
+					continue
+				}
+				if (cb.Op == token.GEQ && cd.Truth && k >= need) || (cb.Op == token.GTR && cd.Truth && k >= need-1) || (cb.Op == token.LSS && !cd.Truth && k >= need) {
+					ok2 = true
+				}
+			}
+			c.Check(ok2, "PROV.bounds", f, "slice of a query value stays in range", sl.Pos(), fmt.Sprintf("s[%d:len(s)-%d] is dominated by len(s) >= %d", a, b, need), fmt.Sprintf("s[%d:len(s)-%d] is not dominated by len(s) >= %d: a value shorter than that (e.g. a lone quote) makes the parser panic with slice bounds out of range", a, b, need))
+		})
+	}
+	if n == 0 {
+		c.Undecided("PROV.bounds", nil, "query value slices", 0, "no s[a:len(s)-b] slice found in the query parsers")
+	}
 }
